@@ -4,7 +4,7 @@ CONSTANTS
   Ops <- G_Ops
   Scheds = {"sync"}
   MaxDepth = 2
-  MaxRuns = 1
+  MaxRuns = 0
   MaxTasks = 12
   FftNeedsOneChunk = TRUE
   ChirpKeyByChannel = TRUE
